@@ -615,6 +615,12 @@ pub fn extract_to_dir<RS: Read + Seek + HasLength>(
                                 if created_files.contains(&existing) {
                                     continue;
                                 }
+                                // with a files_filter existing files count as already extracted (see above).
+                                // A name like `dir/../a.dlt` is recognised only once `dir` has been created.
+                                if files_filter.is_some() && existing.is_file() {
+                                    extracted.push(new_file_name);
+                                    continue;
+                                }
                             }
                             let mut target_file = match std::fs::File::create(&target_file) {
                                 Ok(f) => {
